@@ -28,7 +28,7 @@ pub fn apply(thorough: bool) -> Report {
         "witness search: every layer env with up to K entries drawn from 2 names x 5 behaviours x 4 scopes x values {\"\", \"v\", \":\"}, every query scope incl. an unknown process, start envs {unset, \"\", \"x\"} per name; real LayerEnv::apply vs the reference CNB composition (all, then scope); both insertion orders; non-trivial = cases where the result differs from the start env",
         if thorough { "K = 3 entries" } else { "K = 2 entries" },
     );
-    let names = ["A", "B"];
+    let names = ["A", "CLASSPATH"];   // a name that LOOKS like a path list gets no special delimiter: the delimiter is the delta's `delim` entry or empty
     let vals = ["", "v", ":"];
     let mut entries: Vec<(u8, u8, usize, usize)> = vec![]; // scope, behaviour, name, value
     for s in 0..4u8 { for b in 0..5u8 { for n in 0..2 { for v in 0..3 { entries.push((s, b, n, v)); } } } }
